@@ -20,9 +20,10 @@ dep_inputs           every dependence function equals a fresh one fitted (in dep
                      (conditioning_values, estimates): parameters to 1e-9 on a first fit, curve values to 1e-3 on a
                      re-fit (different start values: optimiser tolerance).
 order                fitting `data[perm]` gives the same model as fitting `data`: same number of intervals, identical
-                     interval multisets, references and boundaries (1e-12), estimates / unconditional parameters /
-                     dependence curves to 1e-3 relative (optimiser tolerance: scipy's fit is only assumed
-                     permutation invariant up to its own tolerance).
+                     interval multisets, references and boundaries (1e-12), estimates / unconditional parameters to
+                     1e-3 relative (optimiser tolerance: scipy's fit is only assumed permutation invariant up to its
+                     own tolerance), dependence curves to 1e-3 for shapes linear in their parameters (unique
+                     least-squares solution; for nonlinear shapes the compared objects are the pairs handed to the fit).
 refit                a model fitted to other data first and then to `data` has the interval multisets, references,
                      boundaries and per-interval estimates of a fresh model fitted to `data` (the template is copied
                      per interval, so these are history-free). Start-value dependent parts (unconditional parameters,
@@ -82,6 +83,7 @@ DEPS = {
     "exp3": (_exp3, [(0, None), (0, None), (None, None)]),
     "asymdecrease3": (_asymdecrease3, [(0, None), (0, None), (None, None)]),
 }
+LINEAR_DEPS = {"lin2", "lin2_pos"}  # least-squares problem convex -> unique solution
 FAMILIES = {
     "weibull": WeibullDistribution,
     "weibull2": lambda **kw: WeibullDistribution(f_gamma=0, **kw),
@@ -380,7 +382,13 @@ def _compare_models(model, g0, g1, label, clause, exact_est, tag, data=None, ful
             continue
         x = np.asarray(d0.conditioning_values, float)
         e_dep = 0.0
-        for pname in dim["params"]:
+        for pname, depname in dim["params"].items():
+            if depname not in LINEAR_DEPS:
+                # nonlinear shapes: curve_fit's choice among (near-)equivalent optima can flip on a 1-ulp change of the
+                # estimates (observed: exp3 on a flat sigma trend, estimates equal to 4e-16, curves 23 % apart). That is
+                # scipy's conditioning, assumed away by the property; the pairs handed to the fit are compared above
+                # and `dep_inputs` checks each fit against its own pairs exactly.
+                continue
             a = _dep_curve(d0.conditional_parameters[pname], x.min(), x.max())
             b = _dep_curve(d1.conditional_parameters[pname], x.min(), x.max())
             e_dep = max(e_dep, max_rel(a, b, atol=1e-6))
